@@ -379,3 +379,100 @@ Proof.
   - left. split; [reflexivity|]. intros. apply json_handler_logoff_l.
   - right. simpl in H. split; [exact H|]. intros. apply json_cli_logoff_l.
 Qed.
+
+(* ---------- several inputs ---------- *)
+Lemma text_fold_ok : forall ins first, snd (text_fold first ins) = forallb in_ok ins.
+Proof.
+  induction ins as [|r rest IH]; intros first; simpl; [reflexivity|].
+  specialize (IH false). destruct (text_fold false rest) as [ss ok]. simpl in IH.
+  destruct r; simpl; [exact IH|reflexivity].
+Qed.
+
+Lemma list_info_text_ok : forall ins, snd (list_info_text ins) = forallb in_ok ins.
+Proof.
+  intros ins. unfold list_info_text.
+  destruct ins as [|r rest]; [reflexivity|].
+  destruct r; [apply text_fold_ok|].
+  destruct rest; [reflexivity|apply text_fold_ok].
+Qed.
+
+Lemma json_strict_collect : forall ins,
+  match json_entries_strict ins with
+  | Some es => json_collect ins = (es, true)
+  | None => snd (json_collect ins) = false
+  end.
+Proof.
+  induction ins as [|r rest IH]; simpl; [reflexivity|].
+  destruct r as [ls e|]; simpl.
+  - destruct (json_entries_strict rest) as [es|].
+    + rewrite IH. reflexivity.
+    + destruct (json_collect rest) as [es ok]. simpl in *. exact IH.
+  - destruct (json_collect rest) as [es ok]. reflexivity.
+Qed.
+
+Lemma json_collect_ok : forall ins, snd (json_collect ins) = forallb in_ok ins.
+Proof.
+  induction ins as [|r rest IH]; simpl; [reflexivity|].
+  destruct (json_collect rest) as [es ok]. simpl in IH.
+  destruct r; simpl; [exact IH|reflexivity].
+Qed.
+
+Lemma json_collect_entries : forall ins, forallb in_ok ins = true ->
+  fst (json_collect ins) = map (fun r => match r with IOk _ e => e | IErr => [] end) ins.
+Proof.
+  induction ins as [|r rest IH]; simpl; [reflexivity|].
+  destruct r as [ls e|]; simpl; [|discriminate].
+  intros H. specialize (IH H). destruct (json_collect rest) as [es ok]. simpl in *. rewrite IH. reflexivity.
+Qed.
+
+(* stream variant = file variant on every list of inputs, successful or not, text or JSON *)
+Lemma multi_stream_equals_file_l : forall json render ins,
+  list_info_stream json render ins = list_info_files json render ins.
+Proof.
+  intros json render ins. unfold list_info_stream, list_info_files.
+  destruct json; [|reflexivity].
+  pose proof (json_strict_collect ins) as H.
+  destruct (json_entries_strict ins) as [es|].
+  - rewrite H. reflexivity.
+  - destruct (json_collect ins) as [es ok]. simpl in H. subst ok. reflexivity.
+Qed.
+
+(* the command succeeds iff every input is readable; any failure gives a non-zero exit status
+   and, in JSON mode, no machine-readable output at all *)
+Lemma multi_ok_iff_l : forall json render ins,
+  snd (list_info_stream json render ins) = forallb in_ok ins.
+Proof.
+  intros json render ins. unfold list_info_stream. destruct json; [|apply list_info_text_ok].
+  pose proof (json_collect_ok ins) as H. destruct (json_collect ins) as [es ok]. simpl in H. subst ok.
+  destruct (forallb in_ok ins); reflexivity.
+Qed.
+
+Lemma multi_failing_l : forall json render ins quiet, existsb (fun r => negb (in_ok r)) ins = true ->
+  snd (run_multi quiet (list_info_stream json render ins)) <> 0%Z
+  /\ snd (run_multi quiet (list_info_files json render ins)) <> 0%Z
+  /\ (json = true -> stdout_of (fst (run_multi quiet (list_info_stream json render ins))) = []
+                  /\ stdout_of (fst (run_multi quiet (list_info_files json render ins))) = []).
+Proof.
+  intros json render ins quiet Hex.
+  assert (Hf : forallb in_ok ins = false).
+  { apply existsb_exists in Hex. destruct Hex as [r [Hin Hr]].
+    destruct (forallb in_ok ins) eqn:Ha; [|reflexivity].
+    rewrite forallb_forall in Ha. rewrite (Ha r Hin) in Hr. discriminate. }
+  rewrite <- multi_stream_equals_file_l.
+  pose proof (multi_ok_iff_l json render ins) as Hok. rewrite Hf in Hok.
+  unfold run_multi. simpl. rewrite Hok. simpl.
+  split; [discriminate|]. split; [discriminate|].
+  intros ->. unfold list_info_stream in *.
+  destruct (json_collect ins) as [es ok]. destruct ok; simpl in *; [discriminate|].
+  split; apply print_no_lines_l.
+Qed.
+
+(* success in JSON mode: exactly one line, rendered from one entry per input, in input order *)
+Lemma multi_json_success_l : forall render ins, forallb in_ok ins = true ->
+  list_info_stream true render ins
+  = ([render (map (fun r => match r with IOk _ e => e | IErr => [] end) ins)], true).
+Proof.
+  intros render ins H. unfold list_info_stream.
+  pose proof (json_collect_ok ins) as Hok. pose proof (json_collect_entries ins H) as He.
+  destruct (json_collect ins) as [es ok]. simpl in *. rewrite H in Hok. subst ok. rewrite He. reflexivity.
+Qed.
